@@ -4,6 +4,7 @@ which is the identity on every rational of denominator ≤ 10^9, and the affine 
 rational formulas.  Only property theorems here; helper lemmas are in Proofs/Geom.lean.
 -/
 import ShapeVerif.Proofs.Geom
+import ShapeVerif.Gen.Tables
 
 namespace ShapeVerif.C13
 open ShapeVerif ShapeVerif.Geom
@@ -83,5 +84,10 @@ example : limitDenominator (1/3) 1000000000 = 1/3 := by decide +kernel
 example : limitDenominator (1/3 + 1/100000000000) 1000000000 = 1/3 := by decide +kernel
 example : mkPoint (1/3) (-7/2) = ⟨1/3, -7/2⟩ := by decide +kernel
 example : lerp ⟨0,1⟩ ⟨3,-2⟩ (1/3) = ⟨1, 0⟩ := by decide +kernel
+
+
+/-- the bound passed to `limit_denominator` in `Point2D.__init__` (regenerated from the source) is the integer 10^9 of the model -/
+theorem translated_max_denominator : Gen.maxDenominator = some ((maxDen : Nat) : Rat) := by
+  simp [Gen.maxDenominator, maxDen]
 
 end ShapeVerif.C13
